@@ -604,7 +604,7 @@ void checkOracles(const Desc& d, const Obs& o, RunResult& r) {
 
     // ---- TeamCity (C20)
     if (c.output == 4) {
-        Vec<TcMsg> msgs; Str err;
+        Vec<TcMsg> msgs; Str err; const Vec<TcMsg>* msgs0p = &msgs;
         if (!decodeTeamCity(o.console, msgs, err)) r.fail("C20", "decode", sigOf("what", err.substr(0, err.find('|'))), err);
         else {
             // expected message list from the event log and failure records
@@ -649,7 +649,12 @@ void checkOracles(const Desc& d, const Obs& o, RunResult& r) {
                 }
                 if (stop) break;
             }
-            // pairing and nesting straight from the decoded stream (independent of the event log)
+            // pairing and nesting straight from the decoded stream (independent of the event log): of the parent's own output, and - with real children - of
+            // the bytes in the order a terminal receives them (a child that starts with unflushed output of the parent repeats it)
+            Vec<TcMsg> term; Str terr; bool haveTerm = c.separate && !d.pi("synthetic") && !childrenMayOverlap;
+            if (haveTerm && !decodeTeamCity(o.terminal, term, terr)) { r.fail("C20", "decode", sigOf("what", Str("terminal: ") + terr.substr(0, terr.find('|'))), terr); haveTerm = false; }
+            for (int pass = 0; pass < (haveTerm ? 2 : 1); pass++) {
+            const Vec<TcMsg>& msgs = pass ? term : *msgs0p;
             int suiteOpen = 0, testOpen = 0; Str openTest, openSuite;
             for (size_t i = 0; i < msgs.size(); i++) {
                 const TcMsg& m = msgs[i]; Str nm = m.attrs.empty() ? Str() : m.attrs[0].second;
@@ -660,6 +665,7 @@ void checkOracles(const Desc& d, const Obs& o, RunResult& r) {
                 else if (m.name == "testFailed" || m.name == "testIgnored") { if (!testOpen || nm != openTest) r.fail("C20", "nesting", sigOf("what", "failure/ignored outside its test"), m.name + " " + nm); }
             }
             if (suiteOpen || testOpen) r.fail("C20", "nesting", sigOf("what", "left open at end"), "");
+            }
         }
     }
 
